@@ -303,7 +303,31 @@ func genLoadWarrior(rng *rand.Rand, cfg gmars.SimulatorConfig, forms []gmars.Ins
 		f.A, f.B = listingField(rng, m), listingField(rng, m)
 		code[i] = f
 	}
-	return gmars.WarriorData{Name: "Unknown", Author: "Anonymous", Code: code, Start: rng.Intn(n)}
+	w := gmars.WarriorData{Name: "Unknown", Author: "Anonymous", Code: code, Start: rng.Intn(n)}
+	// runs of one instruction (DAT fields, SPL chains, imp rings), in particular around the entry
+	switch rng.Intn(6) {
+	case 0:
+		if w.Start > 0 {
+			code[w.Start] = code[w.Start-1]
+		}
+	case 1:
+		if w.Start+1 < n {
+			code[w.Start+1] = code[w.Start]
+		}
+	case 2:
+		for i := 1; i < n; i++ {
+			if rng.Intn(2) == 0 {
+				code[i] = code[i-1]
+			}
+		}
+	case 3:
+		if rng.Intn(3) == 0 {
+			for i := 1; i < n; i++ {
+				code[i] = code[0]
+			}
+		}
+	}
+	return w
 }
 
 // genLoad: C09 round trips; every legal form of the dialect appears
@@ -438,10 +462,37 @@ func genListing(out *bufio.Writer, rng *rand.Rand, count int) int {
 				w.Start = 0
 			}
 			resp := ""
+			// now and then the caller reuses one variable for two AddWarrior calls on the same
+			// simulator (same name, author, entry and length; other code): both listings must
+			// denote what was passed at the time of the call
+			var decoy *gmars.WarriorData
+			decoyResp := ""
+			if len(w.Code) > 0 && rng.Intn(5) == 0 {
+				d := genLoadWarrior(rng, cfg, forms, &next)
+				for len(d.Code) < len(w.Code) {
+					d.Code = append(d.Code, d.Code[rng.Intn(len(d.Code))])
+				}
+				d.Code = d.Code[:len(w.Code)]
+				d.Start = w.Start
+				decoy = &d
+			}
 			f := guarded(10*time.Second, func() {
 				sim, err := gmars.NewSimulator(cfg)
 				if err != nil {
 					resp = "err"
+					return
+				}
+				if decoy != nil {
+					shared := gmars.WarriorData{Name: decoy.Name, Author: decoy.Author, Start: decoy.Start, Code: append([]gmars.Instruction(nil), decoy.Code...)}
+					first, _ := sim.AddWarrior(&shared)
+					if rng.Intn(2) == 0 {
+						copy(shared.Code, w.Code)
+					} else {
+						shared = gmars.WarriorData{Name: w.Name, Author: w.Author, Start: w.Start, Code: append([]gmars.Instruction(nil), w.Code...)}
+					}
+					wr, _ := sim.AddWarrior(&shared)
+					resp = hexd([]byte(wr.LoadCode()))
+					decoyResp = hexd([]byte(first.LoadCode()))
 					return
 				}
 				wr, _ := sim.AddWarrior(&w)
@@ -452,6 +503,10 @@ func genListing(out *bufio.Writer, rng *rand.Rand, count int) int {
 			}
 			fmt.Fprintf(out, "K k%d listing %s %d %s | %s\n", n, cfgFields(cfg), w.Start, cellsd(w.Code), resp)
 			n++
+			if decoy != nil && f == "" && decoyResp != "" {
+				fmt.Fprintf(out, "K k%d listing %s %d %s | %s\n", n, cfgFields(cfg), decoy.Start, cellsd(decoy.Code), decoyResp)
+				n++
+			}
 			per--
 		}
 	}
